@@ -558,6 +558,10 @@ def special_sides(spec, impl):
         return ("(t*(%s) + t^2*(%s)).%s(t=%s)" % (nc.tree_str(t1, modes), nc.tree_str(t2, modes), how, v), degree(ref), ("tree", ref), ("nof", y))
     if kind == "mixed":  # arithmetic of a form with a plain sympy expression on either side
         X, E, op = impl.build(spec["x"]), nc.to_sympy(spec["e"], ops), spec["op"]
+        from pymablock.number_ordered_form import find_operators, operator_types
+        written = {str(a_.name) for t_ in operator_types for a_ in sympy.sympify(E).atoms(t_)}
+        if not written <= {str(o_.name) for o_ in find_operators(sympy.sympify(E))}:
+            return ("custom", None)  # reported defect of find_operators (vanishing term hides its operator): not compared
         y = {"radd": lambda: E + X, "add": lambda: X + E, "sub": lambda: X - E, "rsub": lambda: E - X,
              "rmul": lambda: E * X, "mul": lambda: X * E}[op]()
         if not isinstance(y, NumberOrderedForm):  # e.g. expr - form falls back to a sympy Add
